@@ -307,7 +307,10 @@ inline Val gen_val(int f, const PSpec &p) {
     case K_FLOAT: v.f = (double)(p.has_range ? vf::pick<int>(p.mn * 4, p.mx * 4) : vf::pick<int>(-400, 400)) / 4.0; break;
     case K_BOOL: v.i = vf::coin(); break;
     case K_OPT: v.i = vf::pickn((int)p.opts.size()); break;
-    case K_CHAR: v.i = vf::chance(85) ? vf::pick<int>(33, 126) : vf::pick<int>(0, 127); break;
+    case K_CHAR:
+      v.i = vf::chance(85) ? vf::pick<int>(33, 126) : vf::pick<int>(0, 127);
+      if (v.i == 0 && vf::known("char-nul")) { vf::G().ctx.count("excluded.char-nul"); v.i = 1; }
+      break;
     case K_STR: {
       static const std::string AL = "abcXYZ 09\"\\%\n\t/[]#.'";
       int n = vf::sized<int>(0, 15);
